@@ -46,6 +46,8 @@ def history_plan(rng, tier, levels, silent_streak=False, identity_changes=True, 
         "cap": rng.choice([1, 3, 10]),
         "time_window": True,
     }
+    if rng.random() < 0.4:
+        agent["resp_pad"] = [rng.randrange(0, 16) for _ in range(5)]
     if rng.random() < 0.25:
         # contextEngineID need not equal the authoritative engine id (proxies, multiple contexts)
         agent["ctx_engine_id"] = rng.choice(["", "80000000c0ffee", gen.engine_id(rng)])
